@@ -190,6 +190,8 @@ def end_to_end(c, tier):
             traces.append({"sig": t["sig"], "events": t["events"]})
             labels.append("%s: %s" % (name, t["label"]))
     if not traces:
+        if c.viol:
+            c.finish()      # nothing could be run because of what was already reported (build failures)
         raise MachineryError("no end-to-end string calls recorded")
     v, st = validate_traces("Trace_CallBridge", "Trace_CallBridge", traces, shard=2000)
     c.add_stats(st, "Trace_CallBridge/strings", len(traces))
